@@ -394,6 +394,7 @@ def _no_hidden_zero(a):
 
 
 SCALARS = [2, -1, 3, 0.5, 0, -2, 1.5]
+TIE_SKIPPED = [0]
 
 
 def try_build(e):
@@ -433,6 +434,15 @@ def grow(rng, e, depth, bad_rate=0.06):
         else:
             ops = ['neg', 'mul', 'gadd', 'gsub']
         op = rng.choice(ops)
+        if op == 'normalize':
+            # DESIGN 8, discrete decisions on numbers: the pseudo-inverse tests `weight == 0`; a row sum that is zero
+            # exactly but not in float64 (cancellation of non-dyadic terms) would be inverted by the code: such
+            # operands are not normalised (counted as tie-skipped)
+            sums = np.asarray(o.dot(np.ones(shape[1])), dtype=float)
+            scale = 1 + float(np.max(np.abs(sums))) if len(sums) else 1.0
+            if np.any((np.abs(sums) > 0) & (np.abs(sums) < 1e-6 * scale)):
+                TIE_SKIPPED[0] += 1
+                continue
         if op in ('neg', 'T', 'd2u', 'b2d', 'b2u', 'normalize'):
             e = (op, e)
         elif op == 'astype':
@@ -941,7 +951,7 @@ def build_cases(ctx):
         cases += cases_for_expr(ctx, rng, leaf, full=False)
         ctx.count('expr:exhaustive-leaf')
     # (b) random expressions
-    n_expr = 260 if quick else 2600
+    n_expr = 600 if quick else 9000
     for i in range(n_expr):
         leaf = rand_leaf(rng, bad=(rng.random() < 0.04))
         depth = rng.choice([0, 1, 1, 2, 2, 3, 3, 4] if quick else [0, 1, 2, 2, 3, 3, 4, 4, 5])
@@ -951,12 +961,12 @@ def build_cases(ctx):
         ctx.count('expr:depth%d' % depth)
         ctx.count('expr:leaf:' + leaf[0])
     # (c) shared operands
-    for i in range(12 if quick else 60):
+    for i in range(12 if quick else 80):
         for kind in ('slr', 'pol', 'con', 'nrm', 'lap'):
             cases += cases_shared(ctx, rng, rand_leaf(rng, kind))
     # (d) utilities on matrices
     mats = list(small_binary_matrices(2, 2))
-    for i in range(40 if quick else 400):
+    for i in range(60 if quick else 900):
         r, c = (rand_dim(rng),) * 2 if rng.random() < 0.6 else (rand_dim(rng), rand_dim(rng))
         mats.append(rand_matrix(rng, r, c))
     for a in mats:
@@ -965,7 +975,7 @@ def build_cases(ctx):
         ctx.count('utils:matrix')
     # (e) labels
     label_sets = [[0], [-1], [0, 0], [1, 0], [-1, -1], [-2, -5], [2, -1, 2], [0, 3, 3, -1, 1], []]
-    for i in range(30 if quick else 300):
+    for i in range(40 if quick else 800):
         n = rng.randint(1, 8)
         k = rng.randint(1, 5)
         label_sets.append([rng.choice([-1, -1, -3] + list(range(k))) for _ in range(n)])
@@ -976,13 +986,13 @@ def build_cases(ctx):
                 continue
             cases += cases_membership(ctx, rng, labels, nl)
         ctx.count('utils:labels')
-    for i in range(20 if quick else 200):
+    for i in range(30 if quick else 600):
         r, c = rand_dim(rng), rand_dim(rng)
         m = rand_matrix(rng, r, c, mode=rng.choice(['binary', 'messy', 'nonneg']), density=rng.choice([0.2, 0.4]))
         cases += cases_from_membership(ctx, rng, m)
     # (f) scores
     score_sets = [[], [1.0], [1.0, 1.0], [3, 1, 2], [1, 3, 3, 2, 3], [0, 0, 0, 0]]
-    for i in range(40 if quick else 400):
+    for i in range(40 if quick else 700):
         n = rng.randint(1, 9)
         score_sets.append([rng.choice([0, 1, 2, 3, 0.5, -1, 2.5]) for _ in range(n)])
     for s in score_sets:
@@ -992,7 +1002,7 @@ def build_cases(ctx):
                 cases += cases_topk(ctx, rng, s, k, sort)
         ctx.count('utils:scores')
     # (g) safe_sparse_dot
-    for i in range(60 if quick else 600):
+    for i in range(100 if quick else 2000):
         cases += cases_safe_dot(ctx, rng)
     ctx.exhaustive = False
     return cases
@@ -1011,7 +1021,10 @@ def corpus_cases(ctx):
 
 
 def run(ctx):
+    TIE_SKIPPED[0] = 0
     cases = corpus_cases(ctx) + build_cases(ctx)
+    ctx.count('tie-skipped:normalize-of-inexact-zero-row', TIE_SKIPPED[0])
+    ctx.extra['tolerance'] = {'TOL': str(TOL), 'rule': '|a - b| <= TOL * (1 + max|b|) per vector / matrix; exact whenever the float64 computation is exact'}
     evaluate(ctx, cases)
 
 
